@@ -575,7 +575,7 @@ fn resident_lists(kind: Kind) -> &'static [usize] {
 }
 
 pub fn check_state(cfg: &Cfg, sres: &StateRes, en: &BTreeSet<&'static str>, c: &mut Counters) -> Vec<Finding> {
-    let mut out = vec![];
+    let mut out = sres.extra.clone();
     exec_findings(cfg, &sres.exec, &sres.audit, "state", &mut out);
     let snap = match &sres.snap {
         Some(s) => s,
@@ -878,7 +878,7 @@ fn exec_findings(cfg: &Cfg, exec: &crate::driver::ExecReport, audit: &crate::dri
 // ------------------------------------------------------------------ transition checks
 
 pub fn check_trans(cfg: &Cfg, pre: &Snap, probe: &Probe, op: Op, t: &TransRes, en: &BTreeSet<&'static str>, c: &mut Counters) -> Vec<Finding> {
-    let mut out = vec![];
+    let mut out = t.extra.clone();
     let _ = en;
     exec_findings(cfg, &t.exec, &t.audit, &format!("after {:?}", op), &mut out);
     let ret = match &t.ret {
